@@ -4,6 +4,8 @@ import copy
 from common import build, indentizer, tb_obs, main, TextBlock, Comment
 from dznpy.misc_utils import flatten_to_strlist
 from dznpy.text_gen import chunk, cond_chunk
+from dznpy.cpp_gen import Namespace
+from dznpy.scoping import NamespaceIds
 
 
 def op_flatten(c):
@@ -33,6 +35,8 @@ def op_hist(c):
             tb.trim(end_only=op[1])
         elif k == 'indent':
             tb.indent(indentizer(op[1]))
+        elif k == 'indent_again':
+            tb.indent()
         elif k == 'setlines':
             tb.lines = list(op[1])
         out.append(tb_obs(tb))
@@ -76,6 +80,7 @@ def op_comment(c):
     cm2 += c['more']
     return {'lines': before, 'r1': r1, 'lines_after': mid, 'r2': r2, 'lines_ext': list(cm.lines), 'r3': r3,
             'iadd_same_object': cm2 is alias, 'iadd_type': type(cm2).__name__, 'r3_iadd': str(cm2), 'r3_alias': str(alias),
+            'in_namespace': str(Namespace(NamespaceIds(['My', 'Reserved']), contents=Comment(build(c['c'])))),
             'in_list': str(TextBlock([Comment(build(c['c']))])), 'direct': TextBlock(Comment(build(c['c']))).lines}
 
 
